@@ -54,7 +54,11 @@ Adv == <<
   <<42>>,                                   \* * written quoted / escaped: a value, not the unbounded marker
   <<63>>,                                   \* ?  (escaped / quoted)
   <<32>>,                                   \* a single space
-  <<91,49,93>>                              \* [1]
+  <<91,49,93>>,                             \* [1]
+  <<239,191,189>>,                          \* U+FFFD, validly encoded
+  <<120,239,191,189,121>>,
+  <<127>>,                                  \* DEL
+  <<9>>                                     \* TAB
 >>
 \* texts that Go's ParseFloat accepts or nearly accepts, typed bare
 NumLike == << <<49>>, <<50,46,53>>, <<78,97,78>>, <<73,110,102>>, <<105,110,102,105,110,105,116,121>>, <<110,97,110>>, <<49,101,57,57,57>>,
@@ -100,7 +104,8 @@ NumCases(w) ==
     Case("num_range", F \o <<58,91>> \o w \o <<32,84,79,32>> \o w \o <<93>>, {F}, {w}, ""),
     Case("num_list", F \o <<58,40>> \o w \o <<32,79,82,32,49,41>>, {F}, {w}, ""),
     Case("num_field", w \o Colon \o X, {w}, {X}, ""), Case("num_bare", w, {}, {w}, ""),
-    Case("num_field_range", w \o <<58,91,49,32,84,79,32,50,93>>, {w}, {}, "") }
+    Case("num_field_range", w \o <<58,91,49,32,84,79,32,50,93>>, {w}, {}, ""),
+    Case("num_field_like", w \o <<58,120,42>>, {w}, {<<120,42>>}, ""), Case("num_field_re", w \o <<58,47,120,47>>, {w}, {<<47,120,47>>}, "") }
 
 \* thorough tier: random strings over the characters that matter to a SQL scanner, and field x value pairs
 AdvChars == <<39, 34, 92, 59, 45, 45, 47, 42, 0, 255, 37, 95, 10, 36, 63, 40, 41, 44, 32, 97, 49, 39, 92, 195, 169, 58, 91, 93, 123, 125, 126, 94, 43, 61, 62, 60, 46>>
